@@ -16,7 +16,7 @@ from .c02 import node_calls
 from .c05 import call_time_rule
 
 
-def fallback_rule(repo: Repo, rep: Report, rid: str) -> None:
+def fallback_rule(repo: Repo, rep: Report, rid: str, outcome_decided: bool = False) -> None:
     rep.rule(rid, "fallback discipline: every call that reaches the source generator is inside a try whose handler catches Exception, does not "
                   "re-raise, and leaves the class with the interpreted _read and __compiled__ false; unions are never compiled")
     cg = CallGraph(repo)
@@ -69,6 +69,12 @@ def fallback_rule(repo: Repo, rep: Report, rid: str) -> None:
             sets_read_in_body = "_read" in body_txt
             restores = ("_read" in h_txt and "Structure._read" in h_txt) or not _read_assigned_outside_try(fi, tr)
             ok = marks_true and not handler_marks_true and sets_read_in_body and restores
+            if outcome_decided and not ok:
+                # what the class is left with after a failed (re)compilation is decided by outcome (compiled fold / _update_fields fold): how the
+                # success and the failure path spell it - assignments, a returned pair - is free.  The handler's breadth above stays a rule.
+                rep.notes.append(f"advisory {rid}: {key}: success / failure bookkeeping is spelled differently (decided by the folds)")
+                rep.ok(rid, key, "try/except Exception without re-raise; what the class is left with is decided by the folds", fi.loc(tr), nontrivial=False)
+                continue
             rep.check(ok, rid, key, "try/except Exception: success sets _read and __compiled__=True, failure keeps the interpreted reader",
                       "fallback does not leave the class with the interpreted _read and __compiled__ false", fi.loc(tr))
     rep.floor(rid, "call sites into the source generator", n, 2)
@@ -491,7 +497,9 @@ def unpack_defined_rule(repo: Repo, rep: Report, rid: str) -> None:
     bad = None
     try:
         for fmt, pad_only in samples.items():
-            env = {fmtvar: fmt}
+            # other flags the test consults (a block-level 'some getter slices data') are taken at the value that permits the omission
+            defined = {t_.id for a_ in between for t_ in a_.targets if isinstance(t_, ast.Name)}
+            env = {**{n_: False for n_ in names if n_ != fmtvar and n_ not in defined}, fmtvar: fmt}
             Evaluator(env).run([*between, st], env)
             omitted = env.get(var) == ""
             if omitted and not pad_only:
@@ -592,7 +600,7 @@ def run(repo: Repo, rep: Report, tier: str) -> None:
 
     # both sites are decided by outcome where the folds can interpret them: a failed compile() leaves the interpreted reader bound to the class
     # (compiled fold), a failed recompilation puts classmethod(Structure._read.__func__) and __compiled__ = False into the class dict (_update_fields fold)
-    _fb(repo, rep, fold_decides(repo, tier) and update_fields_fold(repo) is not None, "the compiled-reader fold and the _update_fields fold", fallback_rule, "C03.R1")
+    fallback_rule(repo, rep, "C03.R1", outcome_decided=fold_decides(repo, tier) and update_fields_fold(repo) is not None)
     union_guard_rule(repo, rep, "C03.R1")  # unions are never compiled: not covered by the folds, always armed
     neutral_rule(repo, rep, "C03.R2")
     bookkeeping_rule(repo, rep, "C03.R3", sizes_decided=fold_decides(repo, tier))
